@@ -220,6 +220,8 @@ def run(ctx):
     ok = any(isinstance(n, ast.Assign) and u(n.targets[0]) == '_INTERACTIVE_MODE' and isinstance(n.value, ast.Constant) and n.value.value is val
              for n in walk_local(f.node)) and any(isinstance(n, ast.Global) and '_INTERACTIVE_MODE' in n.names for n in walk_local(f.node))
     ctx.check(ok, 'C13.interactive', construct(f), 'sets the mode flag to %s' % val, '%s no longer sets the module flag to %s' % (f.name, val), f.loc(), instance='flag')
+  ctx.borrow('C11', 'C11.signature', 'C13.atomic')
+
 
 
 def method_detection(ctx, rule):
